@@ -131,6 +131,9 @@ func parseAll(r *common.Run) {
 					if !errors.Is(err, randz.ErrInvalidBase32) {
 						r.Violation("ParseBase32|no-error|"+byteClass(byte(b)), fmt.Sprintf("ParseBase32(%q) = %d, %v; want ErrInvalidBase32", in, id, err), map[string]any{"input": fmt.Sprintf("%q", in)}, "")
 					}
+				} else if l == 13 && digit[in[0]] > 7 {
+					// a numeral of 13 digits whose first digit exceeds 7 denotes no ID (it needs more than 63
+					// bits): Base32 never prints it, nothing is demanded beyond not panicking
 				} else if err != nil {
 					r.Violation("ParseBase32|error-on-valid", fmt.Sprintf("ParseBase32(%q) error %v", in, err), map[string]any{"input": string(in)}, "")
 				} else {
